@@ -251,8 +251,9 @@ def eval_infix_string(s, sg):
 # the model process (interactive)
 
 class Model:
-    def __init__(self, exe, width):
-        self.p = subprocess.Popen([exe, "step", str(width)], stdin=subprocess.PIPE, stdout=subprocess.PIPE,
+    def __init__(self, exe, width, fixed=False):
+        self.p = subprocess.Popen([exe, "step", str(width)] + (["fixed"] if fixed else []),
+                                  stdin=subprocess.PIPE, stdout=subprocess.PIPE,
                                   text=True, bufsize=1)
 
     def step(self, line):
@@ -587,12 +588,20 @@ def oracle(sq, impl_lines):
                 newT = tables(new_nodes, sg)
                 if not topo_sorted(new_nodes):
                     # R1 (NOTES.md): after a user exchange with an arbitrary node the swap-to-lower
-                    # branch can lose the order; only production-style sequences must keep it
+                    # branch can lose the order.
+                    # R3 (NOTES.md, C10_replace_and_simplify_topo_refuted): the same branch loses it
+                    # inside replace_and_simplify/simplify without any user exchange. That is the
+                    # SAME defect of the unchanged code (same signature) exactly when the faithful
+                    # model loses the order on this very op too (its extra check fails: k in
+                    # sq.topo_fail; the printed trees are compared as usual) or the line is the R3
+                    # witness. An order loss the model does not show stays a hard violation.
                     arbitrary = any(o[0] == "x" and o.split()[2] not in "TF" for o in sq.ops[:k + 1])
-                    probs.append(("note" if arbitrary else "topological-order",
+                    inherent = (not arbitrary) and (k in sq.topo_fail or sq.tag == "witness:R3")
+                    probs.append(("note" if (arbitrary or inherent) else "topological-order",
                                   "topological-order-lost-after-arbitrary-exchange" if arbitrary
+                                  else "topological-order-lost-by-replace-or-simplify-alone-R3" if inherent
                                   else "tree is not topologically sorted after %r" % op, k))
-                    if arbitrary:
+                    if arbitrary or inherent:
                         order_lost = True
                 if kind == "d":
                     # volumes keep their truth table (for every assignment); no negated join remains
@@ -945,7 +954,7 @@ def run(ctx):
     ntok = 3000 if quick else 40000
     r = ctx.rng
     ctx.trusted += [
-        "hand-written Gallina model coq/C10/{Csg,Logic,DeMorgan}.v tied to liborange by the exact op-sequence differential (props/C10/run.py, harness/csg.cc, driver.ml)",
+        "hand-written Gallina model coq/C10/{Csg,Logic,DeMorgan,Sense}.v (CsgFixed.v/RunFixed.v iff the exchange repair is in the source under test) tied to liborange by the exact op-sequence differential (props/C10/run.py, harness/csg.cc, driver.ml)",
         "Coq extraction to OCaml (ExtrOcamlBasic) and the parse/print glue props/C10/driver.ml",
         "std::unordered_map / std::hash (modelled as an association list with first-match lookup), std::sort / std::unique / find_sorted (modelled as sorted-unique insertion and linear search)",
         "independent Python evaluator of printed trees (property oracle)",
@@ -956,7 +965,7 @@ def run(ctx):
         "an explicit infix LOGIC builder does not exist in the repository: infix_eval_correct is about the model-side builder build_infix + the real InfixEvaluator semantics",
     ]
     proofs_ok = ctx.coq_prove("Properties_C10.v")
-    ok, log = ctx.coq_build(["C10/Run.vo"])
+    ok, log = ctx.coq_build(["C10/Run.vo", "C10/RunFixed.vo"])
     if not ok:
         ctx.violation("model-broken", "the executable model no longer compiles", {"log_tail": log[-2000:]}, no_input=True)
         return
@@ -990,7 +999,19 @@ def run(ctx):
     rc, wout = ctx.run_harness(exe, ["width"])
     width = int(wout.strip())
     ctx.count("logic-stack-width-%d" % width)
-    model = Model(model_exe, width)
+    # Which CsgTree::exchange is under test? The candidate repair of findings R1/R3 (NOTES.md) adds the
+    # visitor AreOperandsBelow to CsgTree.cc; with it the model is coq/C10/CsgFixed.v (theorems:
+    # coq/C10/CsgFixedProofs.v, PropertiesFixed.v) and the R1/R3 witnesses must NOT reproduce any more.
+    try:
+        repaired = "AreOperandsBelow" in open(os.path.join(vlib.REPO, "src", "orange", "orangeinp", "CsgTree.cc")).read()
+    except OSError:
+        repaired = False
+    if repaired:
+        ctx.count("exchange-repair-detected:model=CsgFixed.v")
+        ctx.notes.append("CsgTree.cc contains the repair of R1/R3 (AreOperandsBelow): the differential uses the model "
+                         "coq/C10/CsgFixed.v; Properties_C10.v's *_refuted theorems R1/R3 describe the unrepaired code "
+                         "(swap in coq/C10/PropertiesFixed.v)")
+    model = Model(model_exe, width, fixed=repaired)
     seqs = []
     for f in sorted(glob.glob(os.path.join(HERE, "corpus", "*.txt"))):
         for line in open(f):
@@ -1034,7 +1055,7 @@ def run(ctx):
             ctx.violation("crash", "the implementation crashed (rc=%s) on a sequence the model accepts" % impl[1]
                           if not forced else "the implementation crashed (rc=%s) after the topological order was lost" % impl[1],
                           dict(replay, partial_output=impl[2][-5:]),
-                          signature=SIG_R1 if (forced and sq.tag == "witness:R1") else None)
+                          signature=SIG_R1 if (forced and sq.tag in ("witness:R1", "witness:R3")) else None)
             if not forced:
                 nviol += 1
             continue
@@ -1050,13 +1071,22 @@ def run(ctx):
         if sq.tag.startswith("witness:"):
             wid = sq.tag.split(":")[1]
             try:
-                if wid == "R1":
+                if wid in ("R1", "R3"):
                     rep_ok = any(not topo_sorted(parse_tree_line(l)[0]) for l in impl if l.startswith("t "))
+                    if repaired:
+                        # with the repair the witnesses are ordinary sequences: the order must be kept
+                        ctx.count("witness-%s-%s" % (wid, "gone-with-repair" if not rep_ok else "STILL-reproduced-with-repair"))
+                        if rep_ok:
+                            ctx.violation("topological-order", "witness %s still loses the topological order with the repair" % wid,
+                                          dict(replay))
+                            nviol += 1
+                        rep_ok = True
                 else:
                     rep_ok = "g 0" in impl and any(l.startswith("s !all(") for l in impl)
             except Exception:
                 rep_ok = False
-            ctx.count("witness-%s-%s" % (wid, "reproduced-on-real-code" if rep_ok else "NOT-reproduced"))
+            if not (repaired and wid in ("R1", "R3")):
+                ctx.count("witness-%s-%s" % (wid, "reproduced-on-real-code" if rep_ok else "NOT-reproduced"))
             if not rep_ok:
                 ctx.notes.append("refutation witness %s no longer reproduces on the code: the _refuted theorem and NOTES.md need an update" % wid)
         probs = oracle(sq, impl)
